@@ -3,8 +3,10 @@
 // claims model written from the property statement. accept <=> model passes.
 #include "lib.hpp"
 
+#define LONG300 "https://issuer.example.com/tenants/" \
+	"aaaaaaaaaaaaaaaaaaaaaaaaaaaaaaaaaaaaaaaaaaaaaaaaaaaaaaaaaaaaaaaaaaaaaaaaaaaaaaaaaaaaaaaaaaaaaaaaaaaaaaaaaaaaaaaaaaaaaaaaaaaaaaaaaaaaaaaaaaaaaaaaaaaaaaaaaaaaaaaaaaaaaaaaaaaaaaaaaaaaaaaaaaaaaaaaaaaaaaaaaaaaaaaaaaaaaaaaaaaaaaaaaaaaaaaaaaaaaaaaaaaaaaaaaaaaaaaaaaaaaaaaaaaaaaaaaaaaaaaaaaaaaa"
 static const char *EXPECT_POOL[] = {"", "a", "issuer", "https://idp.example.com/", "\xc3\x9cn\xc3\xaf" "c\xc3\xb6" "d\xc3\xa9",
-				    "A", "iss uer", "x\"y\\z", "0", "null"};
+				    "A", "iss uer", "x\"y\\z", "0", "null", LONG300, LONG300 LONG300 LONG300 LONG300};
 static const int64_t INT_POOL[] = {0, 1, -1, 1700000000, 2147483647LL, 2147483648LL, -2147483648LL, -2147483649LL,
 				   4294967296LL, INT64_MAX, INT64_MIN, INT64_MAX - 1, INT64_MIN + 1, 1699999999, 1700000001};
 
@@ -28,7 +30,7 @@ static Step gen_verify(Rng &r)
 			s.set(p + "_type", r.range(0, 8));
 	}
 	for (int c = 0; c < 3; c++)
-		s.set(std::string(CL_NAME[c]) + "_kind", r.chance(3, 4) ? 0 : r.range(0, 12));
+		s.set(std::string(CL_NAME[c]) + "_kind", r.chance(3, 4) ? 0 : r.range(0, 14));
 	// drive the clock to a boundary instant computed from the token and the leeway in force
 	int ct = (int)r.pick(std::vector<int>{0, 0, 1, 2});
 	s.set("clock_to", ct);
@@ -197,9 +199,22 @@ static bool str_claim_json(int kind, const std::string &e, std::string &out)
 	case 11:
 		out = "null";
 		return true;
-	default:
+	case 12:
 		out = "{\"v\":" + json_quote(e) + "}";
 		return true;
+	case 13: { // same length, only the last byte differs
+		std::string c = e.empty() ? std::string("x") : e;
+		c.back() = c.back() == 'z' ? 'y' : 'z';
+		out = json_quote(c);
+		return true;
+	}
+	default: { // same length, differs somewhere in the last quarter (late difference in a long value)
+		std::string c = e.empty() ? std::string("x") : e;
+		size_t p = c.size() - 1 - (c.size() / 4) / 2;
+		c[p] = c[p] == 'Q' ? 'R' : 'Q';
+		out = json_quote(c);
+		return true;
+	}
 	}
 }
 
